@@ -401,12 +401,35 @@ func (v *Vue) mergeStyles(staticStyle, boundStyle string) string {
 		staticMap[k] = v
 	}
 
-	// Rebuild style string
+	// Rebuild style string: static declarations in their original order (with overridden
+	// values), then the bound-only ones in theirs. Ranging over the map would make the
+	// output depend on map iteration order.
 	var styles []string
-	for k, v := range staticMap {
-		styles = append(styles, k+":"+v+";")
+	for _, k := range styleOrder(staticStyle, boundStyle) {
+		if v, ok := staticMap[k]; ok {
+			styles = append(styles, k+":"+v+";")
+		}
 	}
 	return strings.Join(styles, "")
+}
+
+// styleOrder returns the property names of the given style strings in order of first appearance.
+func styleOrder(styles ...string) []string {
+	var order []string
+	seen := map[string]bool{}
+	for _, style := range styles {
+		for _, part := range strings.Split(style, ";") {
+			kv := strings.SplitN(strings.TrimSpace(part), ":", 2)
+			if len(kv) != 2 {
+				continue
+			}
+			if key := strings.TrimSpace(kv[0]); !seen[key] {
+				seen[key] = true
+				order = append(order, key)
+			}
+		}
+	}
+	return order
 }
 
 // parseStyleMap parses a CSS style string into a map of properties to values.
